@@ -208,6 +208,7 @@ func specPitcsClockAt(i int) time.Time { return specPitcsClockAt(i) }
 //@ func (time.Time).After
 //@   trusted
 //@   pure
+//@   ensures [compares-instants] result == (pitcsInstant(t) > pitcsInstant(u))
 
 //@ func (time.Time).Add
 //@   trusted
